@@ -1,4 +1,4 @@
-(* Percolator/PropsProofs.v — the proofs of those theorems of Props.v that are not a single lemma application:
+(* Percolator/ProofsTop.v — the proofs of those theorems of Props.v that are not a single lemma application:
    each `<name>_proof` below has exactly the statement of `Theorem <name>` in Props.v, which is closed by `exact`. *)
 From Verif Require Export Percolator.Mixed2 Percolator.Trace Percolator.ProofsTrace Percolator.AddKeys Percolator.Heartbeat.
 From Coq Require Export Sorting.Sorted Permutation.
